@@ -392,4 +392,42 @@ theorem ring_isStrictHull {o z y : Pt} {rest pts : List Pt} (hok : UpOk o (z :: 
       have := triB_closing (M := rest.reverse ++ [y]) htri s hs'
       exact this
 
+/-- **`graham_hull(.., false)` for four or more coordinates** is accepted by the checker, when the
+rounded distances order the points collinear with the pivot like the exact distances -/
+theorem grahamHull_correct_of_distExact (rnd : Rat → Rat) (pts : List Pt) (h4 : ¬ pts.length < 4)
+    (ht : hasTriangle pts = true)
+    (hd : DistExact rnd (swapRemove pts (leastIndex pts)).1 (swapRemove pts (leastIndex pts)).2) :
+    isStrictHull (grahamHull rnd pts false) pts = true := by
+  unfold grahamHull
+  rw [if_neg h4]
+  dsimp only
+  have hne : pts ≠ [] := by intro h; simp [h] at h4
+  have hmin := pivot_least pts
+  have hcov := swapRemove_cover pts (leastIndex pts)
+  have hrest := swapRemove_snd_subset pts (leastIndex pts)
+  have ho := swapRemove_fst_mem pts (leastIndex pts) hne
+  generalize (swapRemove pts (leastIndex pts)).1 = o at *
+  generalize (swapRemove pts (leastIndex pts)).2 = rest at *
+  have hH : ∀ x ∈ grahamSort rnd o rest, InH0 o x := by
+    intro x hx
+    rw [grahamSort_mem] at hx
+    rcases lexLt_tricho x o (hmin x (hrest x hx)) with h | h
+    · exact Or.inl h
+    · exact Or.inr ((inH_iff_lexLt o x).2 h)
+  have hs := grahamSort_sortedAround rnd o rest hd
+  have hcov' : ∀ q ∈ pts, q = o ∨ q ∈ grahamSort rnd o rest := by
+    intro q hq
+    rcases hcov q hq with h | h
+    · exact Or.inl h
+    · exact Or.inr ((grahamSort_mem rnd o rest q).2 h)
+  obtain ⟨z, y, rest', hfold, hok, hins⟩ := graham_scan_correct hH hs hcov' ht
+  have hsub : ∀ v ∈ z :: y :: rest' ++ [o], v ∈ pts := by
+    intro v hv
+    rw [← hfold] at hv
+    rcases grahamFold_subset false _ _ v hv with h | h
+    · rw [grahamSort_mem] at h; exact hrest v h
+    · simp at h; subst h; exact ho
+  rw [hfold]
+  exact ring_isStrictHull hok hins hsub
+
 end Geo.Proofs.C08
